@@ -72,6 +72,56 @@ __CPROVER_decreases(self->coupons_size - i)
 """},
 }
 
+PRELUDE3 = PRELUDE2 + r"""
+/* ghost: snapshots taken between the store and the grow/promote decision; what growHashSet was asked for */
+uint32_t g_slot_after, g_count_after; int g_present; int g_grow_lg; int g_checked;
+#define POW2(n) ((n) >= 2 && (n) <= ((size_t)1 << 26) && ((n) & ((n) - 1)) == 0)
+uint8_t count_trailing_zeros_in_u32(uint32_t input) __CPROVER_assigns() __CPROVER_ensures(__CPROVER_return_value == (input == 0 ? 32 : __builtin_ctz(input)));   /* proved in unit hll_coupon */
+/* the probe, by its contract (proved in unit hll_coupon_set_find) */
+int32_t coupon_set_find(const uint32_t* array, uint8_t lgArrInts, uint32_t coupon)
+__CPROVER_requires(lgArrInts >= 1 && lgArrInts <= 26 && verif_exc == 0 && __CPROVER_r_ok(array, ((size_t)1 << lgArrInts) * sizeof(uint32_t)))
+__CPROVER_assigns(verif_exc)
+__CPROVER_ensures((verif_exc == 0 && __CPROVER_return_value >= 0) ==> ((uint32_t)__CPROVER_return_value < ((uint32_t)1 << lgArrInts) && array[__CPROVER_return_value] == coupon && coupon != hll_constants_EMPTY))
+__CPROVER_ensures((verif_exc == 0 && __CPROVER_return_value < 0) ==> ((uint32_t)~__CPROVER_return_value < ((uint32_t)1 << lgArrInts) && array[~__CPROVER_return_value] == hll_constants_EMPTY));
+/* growHashSet: assumed (frame + the requested size is recorded); it re-inserts every coupon into a new array with the same probe */
+void growHashSet(struct couponlist* self, uint8_t tgtLgCoupArrSize) __CPROVER_assigns(verif_exc, g_grow_lg) __CPROVER_ensures(g_grow_lg == tgtLgCoupArrSize);
+"""
+CH_MEMBERS = MEMBERS
+check_grow = {
+    "name": "checkGrowOrPromote", "file": F, "members": CH_MEMBERS,
+    "match": r"bool CouponHashSet<A>::checkGrowOrPromote\(\)", "sig": "bool checkGrowOrPromote(struct couponlist* self)", "throw_rv": "0", "nloops": 0,
+    "pre_rules": [(r"this->coupons_\.size\(\)", "this->coupons_size", 2)],
+    "methods": ["growHashSet"], "propagate": ["growHashSet"],
+    "contract": r"""
+__CPROVER_requires(__CPROVER_rw_ok(self, sizeof(*self)) && POW2(self->coupons_size) && self->lgConfigK_ >= 4 && self->lgConfigK_ <= 21 && verif_exc == 0 && g_grow_lg == 0)
+__CPROVER_assigns(verif_exc, g_grow_lg)
+/* above the 3/4 load factor: promote when the array has its maximum size 2^(lgConfigK-3), otherwise ask for twice the size; at or below it: nothing */
+__CPROVER_ensures(verif_exc == 0 ==> __CPROVER_return_value == ((size_t)(4 * self->couponCount_) > 3 * self->coupons_size && __builtin_ctzll(self->coupons_size) == self->lgConfigK_ - 3))
+__CPROVER_ensures(verif_exc == 0 ==> g_grow_lg == (((size_t)(4 * self->couponCount_) > 3 * self->coupons_size && __builtin_ctzll(self->coupons_size) != self->lgConfigK_ - 3) ? __builtin_ctzll(self->coupons_size) + 1 : 0))
+""",
+}
+set_update = {
+    "name": "set_couponUpdate", "file": F, "members": CH_MEMBERS,
+    "match": r"HllSketchImpl<A>\* CouponHashSet<A>::couponUpdate\(uint32_t coupon\)",
+    "sig": "void* set_couponUpdate(struct couponlist* self, uint32_t coupon)", "throw_rv": "0", "nloops": 0,
+    "pre_rules": [(r"this->coupons_\.size\(\)", "this->coupons_size", 1), (r"this->coupons_\.data\(\)", "this->coupons_", 1), (r"find<A>\(", "coupon_set_find(", 1),
+                  (r"return this;", "return self;", 2), (r"this->promoteHeapListOrSetToHll\(\*this\)", "promote_to_hll(self)", 1)],
+    "methods": ["checkGrowOrPromote"], "propagate": ["coupon_set_find"],   # an exception out of checkGrowOrPromote (inside the if condition) leaves through the return statements that follow with the flag set
+    "inserts": [(r"\+\+self->couponCount_;", "g_written = 1; g_w = (size_t)(uint32_t)~index; g_present = self->coupons_[g_w] == coupon; g_slot_after = self->coupons_[g_i]; g_count_after = self->couponCount_; g_checked = 1;", "after", 1)],
+    "contract": r"""
+__CPROVER_requires(__CPROVER_rw_ok(self, sizeof(*self)) && POW2(self->coupons_size) && __CPROVER_rw_ok(self->coupons_, self->coupons_size * sizeof(uint32_t)) && self->lgConfigK_ >= 4 && self->lgConfigK_ <= 21)
+__CPROVER_requires(verif_exc == 0 && coupon != hll_constants_EMPTY && g_i < self->coupons_size && g_old == self->coupons_[g_i] && g_written == 0 && g_promoted == 0 && g_grow_lg == 0 && g_checked == 0)
+__CPROVER_assigns(verif_exc, self->couponCount_, g_w, g_written, g_promoted, g_grow_lg, g_present, g_slot_after, g_count_after, g_checked, __CPROVER_object_whole(self->coupons_))
+/* a duplicate changes nothing: same object, no write, no growth, no promotion */
+__CPROVER_ensures((verif_exc == 0 && !g_written) ==> (__CPROVER_return_value == self && self->couponCount_ == __CPROVER_old(self->couponCount_) && self->coupons_[g_i] == g_old && g_grow_lg == 0 && g_promoted == 0))
+/* a new coupon is written into an EMPTY slot, exactly one slot changes, the count grows by one (state before the grow / promote decision) */
+__CPROVER_ensures(g_written ==> (g_present && g_w < self->coupons_size && g_count_after == __CPROVER_old(self->couponCount_) + 1
+    && (g_i == g_w ? (g_old == hll_constants_EMPTY && g_slot_after == coupon) : g_slot_after == g_old)))
+/* promotion to HLL exactly when the load check says so */
+__CPROVER_ensures((verif_exc == 0 && g_written) ==> (g_promoted == (((size_t)(4 * g_count_after) > 3 * self->coupons_size && __builtin_ctzll(self->coupons_size) == self->lgConfigK_ - 3) ? 2 : 0) && (g_promoted != 0 || __CPROVER_return_value == self)))
+""",
+}
+
 UNIT = {
     "id": "hll_coupon_set_find", "property": "C03",
     "clause": "coupon hash set probe (find in CouponHashSet-internal.hpp): for every array size 2..2^26 and every content, the result is the index of a slot holding the coupon, or the "
@@ -115,4 +165,26 @@ void h_list_update(void) {
     "jobs": [{"name": "list_couponUpdate", "entry": "h_list_update", "enforce": "list_couponUpdate", "replace": ["promote_to_hll", "promote_to_set"], "loops": True, "expect_loop_steps": 1, "timeout": 300}],
     "assumptions": ["promoteHeapListOrSetToHll / promoteHeapListToSet enter by a frame contract (they build a new implementation object by replaying the coupons; the replay loop itself is not under contract)"],
 }
-UNITS = [UNIT, UNIT2]
+UNIT3 = {
+    "id": "hll_coupon_set_update", "property": "C03",
+    "clause": "CouponHashSet::couponUpdate and checkGrowOrPromote for every array size 2..2^26 and content: a duplicate changes nothing; a new coupon goes into the EMPTY slot the probe "
+              "returned, exactly that slot changes and the count grows by one; growth to twice the size is requested above the 3/4 load factor and promotion to HLL exactly when the array "
+              "already has its maximum size 2^(lgConfigK-3)",
+    "consts": crules.HLL_CONSTS,
+    "prelude": PRELUDE3,
+    "parts": [check_grow, set_update],
+    "harness": r"""
+static struct couponlist* mk_set(void) {
+  struct couponlist* s = malloc(sizeof(*s)); __CPROVER_assume(s != NULL); size_t n = nondet_size();
+  __CPROVER_assume(POW2(n));
+  s->coupons_ = malloc(sizeof(uint32_t) * n); __CPROVER_assume(s->coupons_ != NULL); s->coupons_size = n; return s;
+}
+void h_set_update(void) { struct couponlist* s = mk_set(); verif_exc = 0; void* r = set_couponUpdate(s, nondet_u32()); VERIF_CANARY_POINT; }
+void h_check_grow(void) { struct couponlist* s = mk_set(); verif_exc = 0; bool r = checkGrowOrPromote(s); VERIF_CANARY_POINT; }
+""",
+    "jobs": [{"name": "checkGrowOrPromote", "entry": "h_check_grow", "enforce": "checkGrowOrPromote", "replace": ["growHashSet", "count_trailing_zeros_in_u32"], "timeout": 300},
+             {"name": "set_couponUpdate", "entry": "h_set_update", "enforce": "set_couponUpdate", "replace": ["coupon_set_find", "checkGrowOrPromote", "promote_to_hll", "count_trailing_zeros_in_u32"], "timeout": 300}],
+    "assumptions": ["growHashSet enters by a frame contract recording the requested size (its re-insertion loop is not under contract); promoteHeapListOrSetToHll by a frame contract",
+                    "coupon_set_find and count_trailing_zeros_in_u32 enter by the contracts proved in units hll_coupon_set_find and hll_coupon"],
+}
+UNITS = [UNIT, UNIT2, UNIT3]
